@@ -194,8 +194,11 @@ def check(args):
         sweep_info = {"cases": len(sw), "executed": agg["summary"]["cases"] - before, "complete": complete, "wall_s": round(time.time() - t2, 1)}
     s = agg.get("summary") or {"cases": 0, "outcomes": {}, "by_fault": {}, "fired": {}, "nontrivial": set(), "dropped": set(), "skipped": 0, "steps": 0, "max_ratio": 0, "wf_rejects": 0, "native_rejected_malformed": 0}
     # ---- stalls: a case that stalled under load is a violation only if it stalls again alone with a 10x limit
-    for case in suspects[:10]:
-        out, status, err = run_solo(case, timeout=10 * c15_idle())
+    solo = {i: (st, val) for i, st, val in core.run_batch(_single_task, suspects[:12], timeout=10 * c15_idle())} if suspects else {}
+    for i, case in enumerate(suspects[:12]):
+        status, out = solo.get(i, ("missing", None))
+        err = None if status == "ok" else out
+        out = out if status == "ok" else None
         if status == "timeout":
             sig = ("hang", case["decoder"])
             first_by_sig.setdefault(sig, {"case": case, "out": {"outcome": "hang", "detail": "no result within %ds running alone" % (10 * c15_idle())}, "sig": list(sig)})
